@@ -6,6 +6,9 @@
 \*     [op |-> "from", m |-> mod, a |-> name, catch |-> c] from mod import name
 \*     [op |-> "def",  m |-> "",  a |-> name, catch |-> ""] a name becomes bound in the running module
 \*     [op |-> "use",  m |-> mod, a |-> name, catch |-> c] import-time evaluation of mod.name
+\*     [op |-> "ambient", m |-> "", a |-> callee, catch |-> c] an import-time call that changes or writes to process-wide state
+\*                     (warnings.filterwarnings, sys.setrecursionlimit, print, logging.basicConfig ...): recorded in soft when the
+\*                     running module is one of OwnModules ("AmbientState")
 \*     [op |-> "probe", m |-> mod, a |-> name, catch |-> c] import-time hasattr/getattr-with-default on mod.name: never raises,
 \*                     but its answer differs between a partially and a fully initialised mod ("OrderDependent")
 \*   catch: "" | "ImportError" | "Exception": the innermost enclosing try handler of the statement
@@ -16,7 +19,8 @@
 \* from sys.modules) until a statement whose handler catches it.
 \* T-ImportSafe: every entry script finishes with err = "none".
 EXTENDS Naturals, Sequences, FiniteSets
-CONSTANTS Body, Modules, ScriptSet, Submodule(_, _)
+CONSTANTS Body, Modules, ScriptSet, Submodule(_, _), OwnModules
+\* OwnModules: the modules of the package under test (side effects of executing THEIR bodies are the package's)
 \* Submodule(m, a) = the full name of submodule a of package m if it exists, else ""
 VARIABLES script, status, stack, defined, err, events, soft
 \* soft: "none", or what made the outcome of the import depend on the order without failing it: a probe that saw a
@@ -51,7 +55,8 @@ Exec ==
     /\ err = "none" /\ Top.pc <= Len(BodyOf(Top.m))
     /\ LET st == BodyOf(Top.m)[Top.pc] IN
        /\ soft' = IF st.op = "probe" /\ ~(st.a \in defined[st.m] \/ (Submodule(st.m, st.a) # "" /\ status[Submodule(st.m, st.a)] = "done"))
-                  THEN "OrderDependent" ELSE soft
+                  THEN "OrderDependent"
+                  ELSE IF st.op = "ambient" /\ Top.m \in OwnModules THEN "AmbientState" ELSE soft
        /\ CASE st.op = "imp" ->
                  IF status[st.m] = "absent" THEN Push(st.m) /\ UNCHANGED <<script, defined, err>>
                  ELSE Advance /\ UNCHANGED <<script, status, defined, err, events>>
@@ -70,6 +75,7 @@ Exec ==
                  IF st.a \in defined[st.m] \/ (Submodule(st.m, st.a) # "" /\ status[Submodule(st.m, st.a)] = "done")
                  THEN Advance /\ UNCHANGED <<script, status, defined, err, events>>
                  ELSE Advance /\ UNCHANGED <<script, status, defined, err, events>>       \* never raises; recorded in soft
+            [] st.op = "ambient" -> Advance /\ UNCHANGED <<script, status, defined, err, events>>
             [] st.op = "def" ->
                  /\ defined' = [defined EXCEPT ![Top.m] = @ \cup {st.a}]
                  /\ Advance /\ UNCHANGED <<script, status, err, events>>
